@@ -178,7 +178,27 @@ def generator_class(which):
             def __init__(self):
                 super().__init__(reduce_parentheses=True)
 
-        _CLASSES["gen"] = {"": CGenerator, "deco": Deco, "ownvisit": OwnVisit, "rpsub": RPSub}
+        class Reentrant(CGenerator):
+            """renders every identifier, constant and binary operation with a
+            brand-new CGenerator, constructed and used while this one is in the
+            middle of its own visit (same thread, nested).  Instances being
+            independent, its output is by construction that of a plain
+            CGenerator - which is therefore its reference."""
+
+            def _fresh(self):
+                return CGenerator(reduce_parentheses=self.reduce_parentheses)
+
+            def visit_ID(self, n):
+                return self._fresh().visit(n)
+
+            def visit_Constant(self, n):
+                return self._fresh().visit(n)
+
+            def visit_BinaryOp(self, n):
+                return self._fresh().visit(n)
+
+        _CLASSES["gen"] = {"": CGenerator, "deco": Deco, "ownvisit": OwnVisit, "rpsub": RPSub,
+                           "reentrant": Reentrant}
     return _CLASSES["gen"][which]
 
 
